@@ -274,9 +274,14 @@ vt_proof_pred! { unwind = 4; fn c14_not_or() {
     kani::cover!(true, "w:reached_end");
 }}
 
-// @vt prop=C14 tier=thorough bound="NOT (.. AND ..) with (NULL, INTEGER), (NULL, NULL); NOT (.. OR ..) with (INTEGER, NULL)" outside="FLOAT/text operands here; deeper nesting; the select-list value" timeout=3600 mem=32
-vt_proof_pred! { unwind = 4; fn c14_not_and_or_b() {
-    andor_case(0, 1, true, true); andor_case(0, 0, true, true); andor_case(1, 0, false, true);
+// @vt prop=C14 tier=thorough bound="NOT ((?1 = ?2) AND (?3 < ?2)) with (?1, ?3) kinds (NULL, INTEGER) and (NULL, NULL)" outside="FLOAT/text operands here; deeper nesting; the select-list value" timeout=3600 mem=16
+vt_proof_pred! { unwind = 4; fn c14_not_and_b() {
+    andor_case(0, 1, true, true); andor_case(0, 0, true, true);
+    kani::cover!(true, "w:reached_end");
+}}
+// @vt prop=C14 tier=thorough bound="NOT ((?1 = ?2) OR (?3 < ?2)) with (?1, ?3) kinds (INTEGER, NULL) and (NULL, NULL)" outside="FLOAT/text operands here; deeper nesting; the select-list value" timeout=3600 mem=16
+vt_proof_pred! { unwind = 4; fn c14_not_or_b() {
+    andor_case(1, 0, false, true); andor_case(0, 0, false, true);
     kani::cover!(true, "w:reached_end");
 }}
 
@@ -319,15 +324,25 @@ vt_proof_pred! { unwind = 4; fn c14_not_of_in_list() {
     kani::cover!(true, "w:reached_end");
 }}
 
-// @vt prop=C14 tier=thorough bound="?1 IN (?2, NULL), ?1 IN (NULL, NULL), NULL IN (NULL, ?3), NULL IN (NULL, NULL); ?1 NOT IN (NULL, ?3), ?1 NOT IN (NULL, NULL), NULL NOT IN (?2, ?3) as row filters" outside="FLOAT members (IN compares floats with an epsilon); lists longer than 2; text" timeout=3600 mem=40
-vt_proof_pred! { unwind = 4; fn c14_in_list_null_more() {
-    in_case([1, 1, 0], false, false, false); in_case([1, 0, 0], false, false, false); in_case([0, 0, 1], false, false, false); in_case([0, 0, 0], false, false, false); in_case([1, 0, 1], true, false, false); in_case([1, 0, 0], true, false, false); in_case([0, 1, 1], true, false, false);
+// @vt prop=C14 tier=thorough bound="?1 IN (?2, NULL), ?1 IN (NULL, NULL), NULL IN (NULL, ?3) as row filters" outside="FLOAT members (IN compares floats with an epsilon); lists longer than 2; text" timeout=3600 mem=16
+vt_proof_pred! { unwind = 4; fn c14_in_list_null_more_a() {
+    in_case([1, 1, 0], false, false, false); in_case([1, 0, 0], false, false, false); in_case([0, 0, 1], false, false, false);
+    kani::cover!(true, "w:reached_end");
+}}
+// @vt prop=C14 tier=thorough bound="NULL IN (NULL, NULL), ?1 NOT IN (NULL, ?3), ?1 NOT IN (NULL, NULL) as row filters" outside="FLOAT members (IN compares floats with an epsilon); lists longer than 2; text" timeout=3600 mem=16
+vt_proof_pred! { unwind = 4; fn c14_in_list_null_more_b() {
+    in_case([0, 0, 0], false, false, false); in_case([1, 0, 1], true, false, false); in_case([1, 0, 0], true, false, false);
+    kani::cover!(true, "w:reached_end");
+}}
+// @vt prop=C14 tier=thorough bound="NULL NOT IN (?2, ?3), NOT (NULL IN (?2, ?3)) as row filters" outside="FLOAT members (IN compares floats with an epsilon); lists longer than 2; text" timeout=3600 mem=16
+vt_proof_pred! { unwind = 4; fn c14_in_list_null_more_c() {
+    in_case([0, 1, 1], true, false, false); in_case([0, 1, 1], false, true, false);
     kani::cover!(true, "w:reached_end");
 }}
 
-// @vt prop=C14 tier=thorough bound="select-list value of ?1 [NOT] IN (?2, NULL) and NULL IN (?2, ?3): INTEGER operands" outside="FLOAT members (IN compares floats with an epsilon); lists longer than 2; text" timeout=3600 mem=40
+// @vt prop=C14 tier=thorough bound="row filter and select-list value of ?1 IN (?2, NULL) and NULL IN (?2, ?3): INTEGER operands" outside="FLOAT members (IN compares floats with an epsilon); lists longer than 2; text" timeout=3600 mem=40
 vt_proof_pred! { unwind = 4; fn c14_in_list_null_value() {
-    in_case([1, 1, 0], false, false, true); in_case([1, 1, 0], true, false, true); in_case([0, 1, 1], false, false, true);
+    in_case([1, 1, 0], false, false, true); in_case([0, 1, 1], false, false, true);
     kani::cover!(true, "w:reached_end");
 }}
 
@@ -363,9 +378,19 @@ vt_proof_pred! { unwind = 4; fn c14_not_of_between() {
     kani::cover!(true, "w:reached_end");
 }}
 
-// @vt prop=C14 tier=thorough bound="BETWEEN over FLOATs and INTEGER-between-FLOATs, NULL BETWEEN, ?1 BETWEEN NULL AND NULL, NOT BETWEEN with a NULL low bound / NULL value, NOT (NULL BETWEEN ..)" outside="text; NaN; the select-list value" timeout=3600 mem=40
-vt_proof_pred! { unwind = 4; fn c14_between_more() {
-    between_case([2, 2, 2], false, false); between_case([1, 2, 2], false, false); between_case([0, 1, 1], false, false); between_case([1, 0, 0], false, false); between_case([1, 0, 1], true, false); between_case([0, 1, 1], true, false); between_case([0, 1, 1], false, true);
+// @vt prop=C14 tier=thorough bound="BETWEEN over FLOATs, INTEGER (|x| <= 2^53) between FLOATs, NULL BETWEEN ?2 AND ?3 as row filters" outside="text; NaN; the select-list value" timeout=3600 mem=16
+vt_proof_pred! { unwind = 4; fn c14_between_more_a() {
+    between_case([2, 2, 2], false, false); between_case([1, 2, 2], false, false); between_case([0, 1, 1], false, false);
+    kani::cover!(true, "w:reached_end");
+}}
+// @vt prop=C14 tier=thorough bound="?1 BETWEEN NULL AND NULL, ?1 NOT BETWEEN NULL AND ?3, NULL NOT BETWEEN ?2 AND ?3 as row filters" outside="text; NaN; the select-list value" timeout=3600 mem=16
+vt_proof_pred! { unwind = 4; fn c14_between_more_b() {
+    between_case([1, 0, 0], false, false); between_case([1, 0, 1], true, false); between_case([0, 1, 1], true, false);
+    kani::cover!(true, "w:reached_end");
+}}
+// @vt prop=C14 tier=thorough bound="NOT (NULL BETWEEN ?2 AND ?3), NOT (?1 BETWEEN NULL AND ?3) as row filters" outside="text; NaN; the select-list value" timeout=3600 mem=16
+vt_proof_pred! { unwind = 4; fn c14_between_more_c() {
+    between_case([0, 1, 1], false, true); between_case([1, 0, 1], false, true);
     kani::cover!(true, "w:reached_end");
 }}
 
